@@ -144,6 +144,14 @@ impl SrcBuilder<'_> {
             .get_node_try_into_terminal_variant_name_variant_index_fns_src()
             .indent(1);
 
+        // A reference to an enum without variants still counts as inhabited,
+        // so an arm-less `match` must scrutinize the enum itself.
+        let terminal_ref_scrutinee = if file.terminal_enum.variants.is_empty() {
+            "*terminal"
+        } else {
+            "terminal"
+        };
+
         let num_of_quasiterminal_kind_variants = file.terminal_enum.variants.len() + 1;
         let num_of_nonterminal_kind_variants = file.nonterminals.len();
         let num_of_state_variants = table.state_count();
@@ -265,7 +273,7 @@ impl {quasiterminal_kind_enum_name} {{
     }}
 
     fn from_terminal(terminal: &{terminal_enum_name}) -> Self {{
-        match terminal {{
+        match {terminal_ref_scrutinee} {{
 {quasiterminal_kind_from_terminal_match_arms_indent_3}
         }}
     }}
